@@ -54,6 +54,13 @@ FrameOf(S, env, b) ==
 
 ValueIn(S, fr, b) == IF fr = 0 THEN S.glob[b] ELSE S.heap[fr].vars[b]
 
+RECURSIVE Unparen(_)
+Unparen(e) == IF e.k = "paren" THEN Unparen(e.e) ELSE e
+IsMethodField(e) == Unparen(e).k = "fn"
+
+\* library functions that look into a number: the numbers beyond the small model (SyltValues, Nx*) are not modelled there
+NumericBuiltins == {"as_float", "as_int", "math.floor", "math.abs", "math.sign", "math.min", "math.max", "math.clamp", "math.div"}
+
 ---------------------------------------------------------------------------
 RECURSIVE EvalE(_, _, _)
 RECURSIVE EvalList(_, _, _, _, _)
@@ -112,9 +119,14 @@ EvalIf(arms, i, env, S) ==
          ELSE IF c.v.v THEN ExecBlock(arms[i].body, env, c.s)
          ELSE EvalIf(arms, i + 1, env, c.s)
 
+\* `env` is the literal's own frame (it holds `self`).  `self` of a blob literal is in scope in exactly those field
+\* initialisers that ARE function literals - the methods; redundant parentheses around the literal do not matter.  In
+\* every other initialiser (a call that is handed a function literal, an `if` that picks one, a data expression) `self`
+\* keeps the meaning it has around the blob literal: such a field is evaluated in the frame the literal itself is in.
 EvalBlobFields(fields, i, env, S, acc) ==
     IF i > Len(fields) THEN Ok(S, acc)
-    ELSE LET r == EvalE(fields[i].e, env, S) IN
+    ELSE LET fenv == IF IsMethodField(fields[i].e) THEN env ELSE S.heap[env].parent
+             r == EvalE(fields[i].e, fenv, S) IN
          IF r.sig # "ok" THEN r
          ELSE EvalBlobFields(fields, i + 1, env, r.s, (fields[i].f :> r.v) @@ acc)
 
@@ -122,6 +134,16 @@ EvalE(e, env, S) ==
     CASE e.k = "int"   -> Ok(S, IntV(e.v))
       [] e.k = "float" -> Ok(S, FloatV(e.n, e.d))
       [] e.k = "str"   -> Ok(S, StrV(e.v))
+      \* a numeral beyond TLC's own integers, written out (num = "int": a decimal int literal, at most 2^63 - 1;
+      \* num = "inf": a float literal beyond the largest double - the nearest double is +infinity)
+      [] e.k = "raw"   ->
+           IF e.num = "inf" THEN Ok(S, FxV("inf"))
+           ELSE IF e.num # "int" \/ ~IsDigits(e.text) \/ Len(e.text) > 19 THEN Halt(S, "drop:raw-literal")
+           ELSE LET w == Parse64(e.text) IN
+                IF IsNeg64(w) THEN Halt(S, "drop:int-literal-out-of-range") ELSE Ok(S, NxInt(w))
+      \* the float literal n * 2^e (e >= 1), written out in full by the printer
+      [] e.k = "fbig"  -> LET v == NxFin(e.n, e.e) IN IF IsErr(v) THEN Halt(S, v.why) ELSE Ok(S, v)
+      [] e.k = "paren" -> EvalE(e.e, env, S)
       [] e.k = "bool"  -> Ok(S, BoolV(e.v))
       [] e.k = "nil"   -> Ok(S, NilV)
       [] e.k = "std"   -> Ok(S, BuiltinV(e.name))
@@ -347,7 +369,8 @@ FloorDivI(a, b) == IF b > 0 THEN a \div b ELSE (0 - a) \div (0 - b)
 PrintEvent(S, snap) == [S EXCEPT !.out = Append(@, [k |-> "print", v |-> snap])]
 
 StdExtra(name, args, S) ==
-    CASE name = "dbg" -> Ok(PrintEvent(S, Render(args[1], S.heap, 6)), args[1])
+    CASE name \in NumericBuiltins /\ (\E i \in 1..Len(args) : IsNxNum(args[i])) -> Halt(S, "drop:limit-number-in-library")
+      [] name = "dbg" -> Ok(PrintEvent(S, Render(args[1], S.heap, 6)), args[1])
       [] name = "spy" ->
            LET r == Render(args[2], S.heap, 6) IN
            IF args[1].k # "str" THEN Halt(S, "stuck:spy-tag")
